@@ -174,6 +174,15 @@ func (c *Ctx) enumDescentGuards(rule string) {
 						}
 					}
 				}
+				if fs, ok := n.(*ast.ForStmt); ok {
+					if as, ok := fs.Init.(*ast.AssignStmt); ok {
+						for _, l := range as.Lhs {
+							if ob := identObj(info, l); ob != nil {
+								loopVars[ob] = true
+							}
+						}
+					}
+				}
 				return true
 			})
 			for _, cd := range conds {
@@ -235,6 +244,15 @@ func (c *Ctx) enumNodeDescentGuards(rule string) {
 					for _, e := range []ast.Expr{rs.Key, rs.Value} {
 						if e != nil {
 							if ob := identObj(info, e); ob != nil {
+								loopVars[ob] = true
+							}
+						}
+					}
+				}
+				if fs, ok := n.(*ast.ForStmt); ok {
+					if as, ok := fs.Init.(*ast.AssignStmt); ok {
+						for _, l := range as.Lhs {
+							if ob := identObj(info, l); ob != nil {
 								loopVars[ob] = true
 							}
 						}
